@@ -23,6 +23,34 @@ CLAIMED = {
   text="Proof for period lists of any length and amounts of any size that SubtractAmountFromPeriods splits every period exactly (left + moved = original, both non-negative, only the requested denomination moves, moved total = requested amount; error exactly when funds are insufficient), that the extract/replace/shift helpers are exact, that Liquidate escrows and mints exactly the requested amount, stores a schedule whose total is that amount and whose events keep the absolute times they had on the account, leaving period by period what was not moved, that Redeem burns/releases/shrinks by exactly the redeemed amount and hands the released schedule to the vesting keeper anchored at the token's own start, and that ApplyVestingSchedule keeps every event of the granted coins at its absolute time (nothing unlocks earlier).",
   design="§6 C11",
   note="Nonlinear facts (floor(a*S/Tot) bounds, cancellation, distributivity) are separate lemmas proved with real arithmetic; main goals may be discharged under the sound abstraction of * and div to uninterpreted functions. Bank/account/erc20 keepers and the denom store leaves are assumed contracts. The defect F2 (merged grants anchored too early) was found by this check and repaired (fix: commit). Backing over arbitrary histories follows only by induction over the per-operation contracts and is not proved as a whole."),
+ "C06": dict(
+  text="Proof for every transaction (any number of messages, any nesting of authz exec messages) that RejectMessagesDecorator calls the next handler only when no message is an Ethereum message, that checkDisabledMsgs returns nil only for message trees that are 'clean' (recursive ghost predicate: no barred type executed as inner message, no barred type granted, exec messages clean recursively - proved with the function's own contract at the recursive call), that AuthzLimiterDecorator calls next only for clean transactions, that the routing closure of NewAnteHandler calls exactly the handler selected by the first extension option and none for an unknown option, and that the Cosmos handler chains start with the reject and authz-limiter decorators whose barred list contains the Ethereum message and vesting-account creation.",
+  design="§6 C06",
+  note="Assumes lib specs for sdk.Tx / authz accessors (message objects are not mutated during the check), that sdk.ChainAnteDecorators runs the chain in order, and that each handler constructor is a function of its options. The EVM handler's decorator list and app/haqq_ante.go are not under contract."),
+ "C07": dict(
+  text="Proof for all fee fields and gas values of the arithmetic the fee rules rest on: EffectiveGasPrice = min(tip + base, cap), fee = price * gas, cost = fee + value and the per-type Fee/Cost/Effective* methods of legacy, access-list and dynamic-fee data (fresh results, stored fields unchanged), GasToRefund, VerifyFee (non-error => cap >= base fee and returned coins = gas limit * effective price, intrinsic gas checked), RefundGas (exactly leftover * price from the fee collector to the sender), and the two minimum-gas-price decorators as guard contracts: next is called only when every message meets the floor.",
+  design="§6 C07",
+  note="The TxData interface is specified at interface level (refinement to the three implementations is by inspection of the verified per-type contracts); bank keeper, go-ethereum accessors and codec unpacking are assumed contracts. The gas tail of ApplyMessageWithConfig is NOT under contract (the engine cannot execute that function); only the arithmetic lemma GasUsedBound is proved - stated in not_decided."),
+ "C12": dict(
+  text="Proof over an abstract ledger view (per-holder balances, total, holder index, bank balances) that Fund credits the depositor with exactly the deposit and raises total and module balance by it, that TransferOwnership moves exactly the amount between distinct accounts, is a no-op for owner == newOwner, touches nobody else and preserves the ledger invariant (sum of shares == total == module balance, index == non-zero holders), and that the four message handlers (full / ratio / amount) compute and pass exactly the stated amounts. Loops over coin lists are proved with prefix invariants.",
+  design="§6 C12",
+  note="Leaf store accessors are assumed contracts over the view; the sum over all holders is an uninterpreted function characterised by its point-update law (trusted). The defect F1 (self-transfer destroyed the share) was exposed by this check and repaired (fix: commit). Genesis initialisation of the invariant is covered under C19 only at field level."),
+ "C13": dict(
+  text="Proof for all bonded amounts, coefficients, timestamps and supplies that MintAndAllocate / EndBlocker mint exactly round(bonded * coef/100 * elapsed/yearMs) in the SDK's 18-decimal arithmetic with the leap-year rule, that the capped block mints exactly max - supply and switches minting off, that supply never exceeds the maximum when it did not before, that the fee collector receives exactly the minted amount, and that nothing changes while disabled or on the first block.",
+  design="§6 C13",
+  note="sdk.Dec operations are modelled exactly from cosmossdk.io/math v1.3.0 (including the truncate-then-round quotient); bank/staking keepers and store leaves are assumed contracts. Known finding F11: the timestamp is not advanced when the block amount is negative and survives a disable/enable cycle (listed in known_findings.json)."),
+ "C14": dict(
+  text="Proof that BurnCoins for gov / bonded / not-bonded pools leaves the supply unchanged, moves exactly the amount from the module to the distribution module account, raises the community pool by exactly the amount and writes nothing else, that an error leaves the pool untouched, and that every other module name reaches the embedded SDK BurnCoins with the same arguments and nothing else is written.",
+  design="§6 C14",
+  note="SDK bank transfer/burn and the KV store / FeePool codec are assumed contracts. That staking and gov are wired to the overriding keeper in app.go is a type-level fact, not an SMT obligation."),
+ "C18": dict(
+  text="Field-level round trip, proved for all transactions: NewTxDataFromTx / NewLegacyTx / newAccessListTx / NewDynamicFeeTx store every field of the go-ethereum transaction (nil <-> nil, values equal, access list mirrored), AsEthereumData reproduces every stored field, signature values round-trip through bytes, DeriveChainID agrees on both code paths, FromEthereumTx records tx.Hash().Hex(), fee and cost are gasPrice*gas and fee+value.",
+  design="§6 C18",
+  note="go-ethereum's Transaction accessors, hex/bytes conversions and the protobuf codec are assumed (uninterpreted functions with stated inverses). Hash and sender preservation follow only under the listed assumption that they are functions of exactly these fields."),
+ "C19": dict(
+  text="Per module (fee market, coinomics, epochs, liquid vesting, ERC20, DAO): ExportGenesis returns the abstract module view field by field, InitGenesis establishes view == document field by field (collections through fold invariants), and the compositions export;import and import;export are identities (ghost compositions proved from the two contracts).",
+  design="§6 C19",
+  note="Leaf store accessors and iteration helpers are assumed contracts (key-prefix disjointness and codec round trips are assumed there); list/collection laws are explicit axioms. Known findings F3a (coinomics drops PrevBlockTs) and F3b (epochs rewrites start height) are listed. EVM state, auth vesting accounts and the app-level export are not covered."),
 }
 
 NA_FINAL = {
